@@ -196,7 +196,13 @@ func c13Extras(env *Env, tape *sim.Tape) *CaseOut {
 		os.Setenv("PATH", lateDir+string(os.PathListSeparator)+oldPath)
 		defer os.Setenv("PATH", oldPath)
 		m.AddCmd("text/x-cmdlate", lateCmd)
-		userCmds := []*exec.Cmd{catCmd, cpCmd, lateCmd}
+		// the placeholders in other arrangements: output file only (input on stdin), and the
+		// output file named before the input file
+		outCmd := exec.Command("/bin/sh", "-c", `cat > "$1"`, "sh", "$out.txt")
+		outInCmd := exec.Command("/bin/sh", "-c", `cp "$2" "$1"`, "sh", "$out.txt", "$in.txt")
+		m.AddCmd("text/x-cmdout", outCmd)
+		m.AddCmd("text/x-cmdoutin", outInCmd)
+		userCmds := []*exec.Cmd{catCmd, cpCmd, lateCmd, outCmd, outInCmd}
 		snap := func() string {
 			var sb strings.Builder
 			for _, c := range userCmds {
@@ -214,7 +220,7 @@ func c13Extras(env *Env, tape *sim.Tape) *CaseOut {
 				data := []byte(fmt.Sprintf("payload of task %d call %d\n", ti, oi))
 				// the call runs in one scheduler turn: a task blocked in a real wait4 must not
 				// depend on a goroutine that is parked for the scheduler
-				mtc := []string{"text/x-cmd", "text/x-cmdfile", "text/x-cmdlate"}[tape.Draw(3)]
+				mtc := []string{"text/x-cmd", "text/x-cmdfile", "text/x-cmdlate", "text/x-cmdout", "text/x-cmdoutin"}[tape.Draw(5)]
 				if oi == 0 && tape.Draw(2) == 0 {
 					// what a process does on its very FIRST use of a mechanism (lazy initialisation)
 					// is seen only once per process: make it likely that several tasks begin
@@ -275,7 +281,7 @@ func c13Extras(env *Env, tape *sim.Tape) *CaseOut {
 			}
 			if op.Err != nil || !bytes.Equal(op.Out, op.In) {
 				out.V = &sim.Violation{Kind: "output-differs", Site: "AddCmd:" + op.MT,
-					Detail: fmt.Sprintf("command minifier (cat / cp $in $out) returned %q err=%v for input %q when called repeatedly from several tasks", op.Out, op.Err, op.In)}
+					Detail: fmt.Sprintf("command minifier (cat / cp $in $out / cat > $out / cp into $out from $in) returned %q err=%v for input %q when called repeatedly from several tasks", op.Out, op.Err, op.In)}
 				return out
 			}
 		}
